@@ -249,11 +249,11 @@ def _sum_wo_cat(a, axis=None, dtype=None):
     if dtype is None:
         dtype = getattr(np.zeros(1, dtype=a.dtype).sum(), "dtype", object)
 
-    if a.shape[axis] == 1:
-        from dask_array._collection import squeeze
-
-        return squeeze(a, axis=axis)
-
+    # No shortcut for a single block on the contracted axis: how many blocks it
+    # has is only known once the operands are lowered (optimization may put one
+    # of them on other blocks), and squeezing an axis that then holds several
+    # partial products would keep one of them.  The reduction costs one task
+    # per output block when there is nothing to add.
     return reduction(a, _chunk_sum, _chunk_sum, axis=axis, dtype=dtype, concatenate=False)
 
 
